@@ -119,7 +119,13 @@ def run_rt(spec, acc):
     rng = random.Random(seed)
     watch = HostWatch()
     watch.start()
-    inj = Injector(clock_codes(), seed)
+    from sc3.base import stream as stm_
+    from vf.inject import func_code
+    codes = clock_codes() + [stm_._MainTimeThread._seconds.fget.__code__,
+                             func_code(type(main)._update_logical_time)
+                             if hasattr(type(main), '_update_logical_time')
+                             else func_code(main._update_logical_time)]
+    inj = Injector(codes, seed)
     inj.p_yield = cfg['p_yield']
     inj.start()
     burn = Burners(cfg['burners'])
@@ -146,6 +152,21 @@ def run_rt(spec, acc):
                     time.sleep(jr.uniform(0.0005, 0.003))
                 time.sleep(0.004)
         threading.Thread(target=slow, daemon=True, name='vf-slow').start()
+    # a plain thread that keeps asking for the logical time (REPL / GUI style
+    # use of the API) while the clock threads run routines
+    reader_stop = [False]
+    reads = [0]
+
+    def reader():
+        while not reader_stop[0]:
+            try:
+                clk.SystemClock.seconds
+                reads[0] += 1
+            except Exception:
+                pass
+            if reads[0] % 50 == 0:
+                time.sleep(0)
+    threading.Thread(target=reader, daemon=True, name='vf-time-reader').start()
     t_end = time.time() + cfg['secs']
     case = 0
     try:
@@ -190,6 +211,8 @@ def run_rt(spec, acc):
                     acc.sample({'mode': 'rt', 'program': prog, 'log_head': r.log[:8]})
                 r.stop_clocks()
     finally:
+        reader_stop[0] = True
+        acc.count('concurrent_time_reads', reads[0])
         slow_stop[0] = True
         threading.Condition.wait = orig_wait
         inj.stop()
